@@ -279,7 +279,34 @@ def main():
         HandMadeZstd.window_log = int(case["zstd_window"])
         C.algorithm_class_map[P.FILTER_ZSTD] = (HandMadeZstd, C.algorithm_class_map[P.FILTER_ZSTD][1])
     try:
-        if case["phase"] == "write" and case.get("per_session"):
+        if case["phase"] == "write" and case.get("pad_header"):
+            # an ordinary archive whose ENCODED header is followed, behind its END mark, by pad_header zero bytes (they are part of the
+            # packed header stream's declared size; the parser ignores what follows END): small on disk, huge when decoded
+            import py7zr.archiveinfo as ai
+            from py7zr.helpers import calculate_crc32
+            orig_write = ai.Header.write
+            pad = int(case["pad_header"])
+
+            def padded_write(self, file, afterheader, encoded=True, encrypted=False):
+                if not encoded and isinstance(file, io.BytesIO):
+                    start, length, crc = orig_write(self, file, afterheader, False, False)
+                    block = bytes(1 << 20)
+                    for _ in range(pad >> 20):
+                        file.write(block)
+                        crc = calculate_crc32(block, crc)
+                    return start, length + (pad >> 20 << 20), crc
+                return orig_write(self, file, afterheader, encoded, encrypted)
+
+            ai.Header.write = padded_write
+            try:
+                with py7zr.SevenZipFile(arc, "w", filters=case["filters"]) as z:
+                    for k, (size, texture) in enumerate(case["members"]):
+                        z.writef(Synthetic(size, texture, seed=k), f"m{k}")
+            finally:
+                ai.Header.write = orig_write
+            events.append({"e": "wread", "n": 0, "block": 0})
+            events.append({"e": "wret", "held": 0})
+        elif case["phase"] == "write" and case.get("per_session"):
             # one session per member (create, then append): every member gets a folder of its own, and an archive opened by name
             # is then extracted by one worker per folder at the same time
             for k, (size, texture) in enumerate(case["members"]):
@@ -355,7 +382,7 @@ def main():
     except BaseException as ex:  # noqa
         out["error"] = f"{type(ex).__name__}: {str(ex)[:200]}"
     peak = rss_kb()
-    events.append({"e": "rss", "phase": case["phase"], "base": sat(base), "peak": sat(peak)})
+    events.append({"e": "rss", "phase": case["phase"], "base": sat(base), "peak": sat(peak), "tag": case.get("tag", "")})
     out.update(events=events, base_kb=base, peak_kb=peak, wall=round(time.time() - t0, 1))
     print(json.dumps(out))
 
